@@ -282,7 +282,12 @@ func (viso *VirtualISO) scanDirectory() error {
 			}
 
 			// sector numbers (and volume size) are 32-bit, refuse what can't be described instead of wrapping
-			fileSectors := (itemStat.Size() + int64(sectorSize) - 1) / int64(sectorSize)
+			// (division first: size may be so close to the maximum that rounding up by addition wraps too)
+			fileSectors := itemStat.Size() / int64(sectorSize)
+			if itemStat.Size()%int64(sectorSize) > 0 {
+				fileSectors++
+			}
+
 			if itemStat.Size() < 0 || fileSectors > maxFilesSizeSectors-int64(viso.filesSizeSectors) {
 				return fmt.Errorf("item %s: %w", fullPath, ErrTooLarge)
 			}
